@@ -47,6 +47,7 @@ class Batch:
         self.samples = []
         self.faults = {}
         self.extra = {}
+        self.accept = set()  # findings of these properties also count as violations of self.prop
 
     def add(self, idx, res):
         if "harness_error" in res:
@@ -79,7 +80,7 @@ class Batch:
         if len(self.samples) < 3 and res.get("sample") is not None and res.get("nontrivial"):
             self.samples.append(res["sample"])
         for f in res.get("findings", []):
-            if f["prop"] == self.prop:
+            if f["prop"] == self.prop or f["prop"] in self.accept:
                 self.violations.append((idx, res.get("seed"), f))
 
     def wall(self):
